@@ -243,6 +243,7 @@ func (wp *workerPool) workerFunc(ch *workerChan) {
 			wp.connState(c, StateHijacked)
 		} else {
 			_ = c.Close()
+			verifPoint("wp.afterClose")
 			wp.connState(c, StateClosed)
 			releasePerIPConn(c)
 		}
